@@ -7,7 +7,7 @@ import e2e
 BRIDGE = r'''
 #[diplomat::bridge]
 mod ffi {
-    use diplomat_runtime::{DiplomatWrite, DiplomatStr};
+    use diplomat_runtime::{DiplomatWrite, DiplomatStr, DiplomatOption};
     use core::fmt::Write;
     #[diplomat::opaque]
     pub struct Store { pub s: String, pub v: Vec<u32>, pub w: Vec<u16>, pub n: u32 }
@@ -32,6 +32,11 @@ mod ffi {
     impl Pt {
         pub fn sum(self) -> f64 { self.x as f64 + self.y + self.z as f64 }
         pub fn shift(self, d: i16, l: Lv) -> Pt { Pt { x: self.x + d, y: self.y * 2.0, z: l as u8 } }
+        // optional by-value payloads spelled `Self`, with both Option spellings (they must behave like the spelled-out type)
+        pub fn x_or_std(self, o: Option<Self>) -> i16 { match o { Some(p) => p.x, None => self.x } }
+        pub fn x_or_dipl(self, o: DiplomatOption<Self>) -> i16 { match o.into_option() { Some(p) => p.x, None => self.x } }
+        pub fn x_or_named(self, o: Option<Pt>) -> i16 { match o { Some(p) => p.x, None => self.x } }
+        pub fn maybe(self, yes: bool) -> Option<Self> { if yes { Some(self) } else { None } }
     }
     impl Lv {
         pub fn code(self) -> i32 { self as i32 }
@@ -88,6 +93,14 @@ int main(void) {
     free(w3.buf); Store_destroy(s); }
   { Pt p = { -7, 2.5, 9 }; Pt q = Pt_shift(p, 10, Lv_Mid);
     printf("pt sum=%.3f shift=%d,%.3f,%u\n", Pt_sum(p), (int)q.x, q.y, (unsigned)q.z); }
+  { Pt p = { -7, 2.5, 9 }; Pt o = { 0, 1.0, 1 }; int16_t xs[3] = { 0, 7, 2 };
+    printf("ptopt");
+    for (int i = 0; i < 3; i++) { o.x = xs[i];
+      Pt_option some; memset(&some, 0xEE, sizeof some); some.ok = o; some.is_ok = true;
+      Pt_option none; memset(&none, 0xEE, sizeof none); none.is_ok = false;
+      printf(" %d,%d,%d/%d,%d,%d", (int)Pt_x_or_std(p, some), (int)Pt_x_or_dipl(p, some), (int)Pt_x_or_named(p, some),
+             (int)Pt_x_or_std(p, none), (int)Pt_x_or_dipl(p, none), (int)Pt_x_or_named(p, none)); }
+    { Pt_maybe_result r = Pt_maybe(p, true); Pt_maybe_result r0 = Pt_maybe(p, false); printf(" maybe=%d:%d,%d\n", (int)r.is_ok, r.is_ok ? (int)r.ok.x : 0, (int)r0.is_ok); } }
   printf("lv consts=%d,%d,%d,%d codes=%d,%d,%d,%d next=%d,%d,%d,%d\n", (int)Lv_High, (int)Lv_Mid, (int)Lv_Low, (int)Lv_Top,
          Lv_code(Lv_High), Lv_code(Lv_Mid), Lv_code(Lv_Low), Lv_code(Lv_Top), (int)Lv_next(Lv_High), (int)Lv_next(Lv_Mid), (int)Lv_next(Lv_Low), (int)Lv_next(Lv_Top));
   printf("mx consts=%d,%d,%d,%d codes=%d,%d,%d,%d", (int)Mx_A, (int)Mx_B, (int)Mx_C, (int)Mx_D, Mx_code(Mx_A), Mx_code(Mx_B), Mx_code(Mx_C), Mx_code(Mx_D));
@@ -113,6 +126,8 @@ def expected(writeable_struct=True):
         out.append("simple small: failed=1 len=2 cap=3 | big: failed=0 len=7 text=7=12345")
         out.append("custom: grows=1 flushes=2 failed=0 len=14 text=7=123459=12345")
     out.append("pt sum=4.500 shift=3,5.000,1")
+    if writeable_struct:      # C driver only: by-value optional payloads spelled `Self`
+        out.append("ptopt 0,0,0/-7,-7,-7 7,7,7/-7,-7,-7 2,2,2/-7,-7,-7 maybe=1:-7,0")
     out.append("lv consts=3,1,0,7 codes=3,1,0,7 next=1,0,7,3")
     out.append("mx consts=0,5,6,3 codes=0,5,6,3 pick=1:6 pick0=0")
     return out
